@@ -11,40 +11,69 @@ open VaxisModel.Model.ParserTable VaxisModel.Model.Parser VaxisModel.Model.Parse
 open VaxisModel.Lemmas.ParserRun VaxisModel.Lemmas.ParserAbs VaxisModel.Lemmas.Parser
 
 /-- **Exactly one EOF, last, then the channel is closed** — for every sequence of labels
-    (reads of any runes, end of input or read error at any point, Close() at any point, timer
-    firings, even the racy ones), any table and any start: once the run loop has ended, what was
-    emitted is `pre ++ [EOF]` with no EOF in `pre` and the channel is closed; before that, no EOF
-    has been emitted and the channel is open.  Nothing is emitted after the EOF (no label that emits
-    is enabled in `done`), so nothing is ever sent on the closed channel. -/
-theorem eof_once_last (T : Table) (c : Bool) (ls : List Label) (s : Sys) (out : List Seq)
+    (reads of any runes, end of input or read error at any point, Close() at any point, the timer
+    firing, its callback running late at *any* later point — after further reads or after the loop
+    has ended), any table: once the run loop has ended, what was emitted is `pre ++ [EOF]` with no
+    EOF in `pre` and the channel is closed; before that, no EOF has been emitted and the channel is
+    open.  Nothing at all is emitted after the EOF (in `done` no enabled label emits: a late
+    callback is out of date and returns), so nothing is ever sent on the closed channel. -/
+theorem eof_once_last (T : Table) (c : Cfg) (hg : c.guarded = true) (ls : List Label) (s : Sys) (out : List Seq)
     (h : Sys.run T c Sys.init ls = some (s, out)) :
     (s.pc = .done → (∃ pre, out = pre ++ [.eof] ∧ Seq.eof ∉ pre) ∧ s.chanClosed = true) ∧
     (s.pc ≠ .done → Seq.eof ∉ out ∧ s.chanClosed = false) := by
   have h0 : EofInv Sys.init [] := by
     refine ⟨fun h => ?_, fun _ => ⟨by simp, rfl⟩⟩
     exact absurd h (by decide)
-  have := run_EofInv T c ls Sys.init [] s out h0 h
-  simpa [EofInv] using this
+  have := run_EofInv T c hg ls Sys.init [] s out h0 h
+  simp only [List.nil_append] at this
+  exact ⟨fun hd => ⟨(this.1 hd).1, (this.1 hd).2.1⟩, this.2⟩
+
+/-- … and once the loop has ended, every further enabled step emits nothing. -/
+theorem nothing_after_eof (T : Table) (c : Cfg) (hg : c.guarded = true) (s : Sys)
+    (hd : s.pc = .done) (ha : s.armed = false) (hf : s.fresh = false) (l : Label) (s' : Sys) (o : List Seq)
+    (h : Sys.step T c s l = some (s', o)) : o = [] ∧ s'.pc = .done ∧ s'.armed = false ∧ s'.fresh = false := by
+  cases l with
+  | closeSig =>
+    simp only [Sys.step, Option.some.injEq, Prod.mk.injEq] at h
+    obtain ⟨rfl, rfl⟩ := h; exact ⟨rfl, hd, ha, hf⟩
+  | enterRead => simp [Sys.step, hd] at h
+  | breakClose => simp [Sys.step, hd] at h
+  | read r => simp [Sys.step, hd] at h
+  | readEnd => simp [Sys.step, hd] at h
+  | timerFire => simp [Sys.step, hd] at h
+  | timerExpire => simp [Sys.step, ha] at h
+  | cbRun fresh =>
+    cases fresh with
+    | true => simp [Sys.step, hf] at h
+    | false =>
+      simp only [Sys.step, hg, if_true] at h
+      split at h
+      · simp only [Option.some.injEq, Prod.mk.injEq] at h
+        obtain ⟨rfl, rfl⟩ := h; exact ⟨rfl, hd, ha, hf⟩
+      · cases h
 
 /-- The facts about the timer and the channel that the model hard-codes are those of the source:
     10 ms delay, the callback resets `ignoreST` with the state, channel capacity 2. -/
 theorem gen_lifecycle_constants :
-    Gen.ParserTable.escDelayMs = 10 ∧ Gen.ParserTable.timerClearsIgnoreST = true ∧
-    Gen.ParserTable.chanCap = 2 := by decide
+    Gen.ParserTable.escDelayMs = 10 ∧ Gen.ParserTable.chanCap = 2 ∧
+    (⟨Gen.ParserTable.timerClearsIgnoreST, Gen.ParserTable.timerGuarded⟩ : Cfg) = Cfg.fixed := by decide
 
-/-- **No panic, invariant kept** along every race-free run from the initial state: no `panic`
-    item is ever emitted (no nil `p.exit()` call on BEL, no action on the rune of an `eof`), and
-    while the loop runs `p.exit` is the exit function of the current state, `ignoreST` is only set
-    inside a control string or in escape, and the timer is only pending in the escape state. -/
-theorem no_panic (ls : List Label) (hl : ls.all (fun l => !l.isRace) = true) (s : Sys) (out : List Seq)
-    (h : Sys.run handTable true Sys.init ls = some (s, out)) :
-    Seq.panic ∉ out ∧ (s.pc ≠ .done → invB (α s.ps) = true ∧ (s.armed = true → s.ps.state = .escape)) := by
-  obtain ⟨h1, h2⟩ := run_SInv ls hl Sys.init s out SInv_init h
-  exact ⟨h2, h1⟩
+/-- **No panic, invariant kept** along *every* run from the initial state — all schedules of
+    reads, end of input, Close(), timer firings and delayed callbacks: no `panic` item is ever
+    emitted (no nil `p.exit()` call on BEL, no action on the rune of an `eof`, no send on the closed
+    channel), and while the loop runs `p.exit` is the exit function of the current state, `ignoreST`
+    is only set inside a control string or in escape, and the timer is only pending — or its
+    callback up to date — in the escape state reached by its ESC. -/
+theorem no_panic (ls : List Label) (s : Sys) (out : List Seq)
+    (h : Sys.run handTable Cfg.fixed Sys.init ls = some (s, out)) :
+    Seq.panic ∉ out ∧
+    (s.pc ≠ .done → invB (α s.ps) = true ∧ ((s.armed = true ∨ s.fresh = true) → s.ps.state = .escape)) := by
+  obtain ⟨h1, h2⟩ := run_SInv ls Sys.init s out SInv_init h
+  exact ⟨h2, fun hnd => ⟨(h1 hnd).1, (h1 hnd).2.1⟩⟩
 
 /-- **The read ending ends the loop**: from any state blocked in the read, end of input or a read
     error is enabled and leads to `done` in that one step (with the EOF item, by `eof_once_last`). -/
-theorem read_end_stops (T : Table) (c : Bool) (s : Sys) (h : s.pc = .inRead) :
+theorem read_end_stops (T : Table) (c : Cfg) (s : Sys) (h : s.pc = .inRead) :
     ∃ s' o, Sys.step T c s .readEnd = some (s', o) ∧ s'.pc = .done ∧ o.getLast? = some .eof := by
   simp only [Sys.step, h, if_true, finishing]
   exact ⟨_, _, rfl, rfl, by simp⟩
@@ -53,23 +82,23 @@ theorem read_end_stops (T : Table) (c : Bool) (s : Sys) (h : s.pc = .inRead) :
     has returned a rune (and that rune has been handled), the loop cannot start another read; its
     only move is to leave, emitting EOF. -/
 theorem close_then_read_stops (s : Sys) (hinv : SInv s) (h : s.pc = .inRead) (r : Nat) :
-    let s1 : Sys := { s with closeReq := true, ps := (pstep s.ps (.rune r)).st, pc := .atSelect,
-                             armed := startsTimer handTable r }
-    Sys.run handTable true s [.closeSig, .read r] = some (s1, (pstep s.ps (.rune r)).out) ∧
-    Sys.step handTable true s1 .enterRead = none ∧
-    (Sys.step handTable true s1 .breakClose).map (fun x => (x.1.pc, x.2)) = some (.done, [.eof]) := by
+    let s1 : Sys := { s.outdate with closeReq := true, ps := (pstep s.ps (.rune r)).st, pc := .atSelect,
+                                     armed := startsTimer handTable r }
+    Sys.run handTable Cfg.fixed s [.closeSig, .read r] = some (s1, (pstep s.ps (.rune r)).out) ∧
+    Sys.step handTable Cfg.fixed s1 .enterRead = none ∧
+    (Sys.step handTable Cfg.fixed s1 .breakClose).map (fun x => (x.1.pc, x.2)) = some (.done, [.eof]) := by
   have hi := hinv (by rw [h]; decide)
   have hs := hand_inv_step s.ps hi.1 (.rune r)
   have hstop : (VaxisModel.Model.Parser.step handTable s.ps (.rune r)).stop = false := by
     have := hs.2.2; simpa [pstep, isEof] using this
   refine ⟨?_, ?_, ?_⟩
-  · simp [Sys.run, Sys.step, h, hstop, pstep]
+  · simp [Sys.run, Sys.step, h, hstop, pstep, Sys.outdate]
   · simp [Sys.step]
   · simp [Sys.step, finishing]
 
 /-- **No deadlock**: in every state that is not `done` a move of the main goroutine is enabled
     (start a read or leave at the `select`; return from the read otherwise). -/
-theorem progress (T : Table) (c : Bool) (s : Sys) (h : s.pc ≠ .done) :
+theorem progress (T : Table) (c : Cfg) (s : Sys) (h : s.pc ≠ .done) :
     (Sys.step T c s .enterRead).isSome ∨ (Sys.step T c s .breakClose).isSome ∨
     (Sys.step T c s .readEnd).isSome := by
   cases hpc : s.pc with
@@ -82,25 +111,54 @@ theorem progress (T : Table) (c : Bool) (s : Sys) (h : s.pc ≠ .done) :
 
 /-! ## Escape key -/
 
-/-- **Escape-key accounting**: in every race-free run the number of `C0 0x1B` items delivered is
-    exactly the number of times the timer fired while the parser was blocked in a read — the
-    automaton itself never produces one (ESC is intercepted by `anywhere`).  So an ESC promptly
-    followed by further bytes is never reported as Escape, and a lone ESC is reported once. -/
-theorem esc_reports_eq_timer_firings (ls : List Label) (hl : ls.all (fun l => !l.isRace) = true)
-    (s s' : Sys) (out : List Seq) (h : Sys.run handTable true s ls = some (s', out)) :
-    out.count (.c0 0x1B) = ls.count .timerFire :=
-  run_esc_count true ls hl s s' out h
+/-- **Escape-key accounting**: in every run the number of `C0 0x1B` items delivered is exactly the
+    number of steps in which the timer fired while the parser was blocked in the read, or its callback
+    ran while still up to date — the automaton itself never produces one (ESC is intercepted by
+    `anywhere`), and an out-of-date callback produces nothing.  So an ESC promptly followed by further
+    bytes is never reported as Escape, and a lone ESC is reported once. -/
+theorem esc_reports_eq_timer_firings (ls : List Label) (s s' : Sys) (out : List Seq)
+    (h : Sys.run handTable Cfg.fixed s ls = some (s', out)) :
+    out.count (.c0 0x1B) = (ls.filter Label.isEscKey).length :=
+  run_esc_count ls s s' out h
+
+/-- **A delayed callback is either exactly the Escape key or nothing.**  If it is still up to
+    date (no read has returned and the loop has not ended since its ESC) the parser is in the escape
+    state that ESC put it in, and the callback does what the prompt firing does: `C0 0x1B`, ground,
+    flag cleared.  Otherwise it changes nothing and emits nothing — it can no longer report Escape
+    after a sequence, tear a sequence apart, or send on the closed channel (F29). -/
+theorem delayed_callback (s : Sys) (hinv : SInv s) (hnd : s.pc ≠ .done) (fresh : Bool) (s' : Sys) (o : List Seq)
+    (h : Sys.step handTable Cfg.fixed s (.cbRun fresh) = some (s', o)) :
+    (fresh = true ∧ s.ps.state = .escape ∧ o = [.c0 0x1B] ∧ s'.ps = timerReset true s.ps) ∨
+    (fresh = false ∧ o = [] ∧ s'.ps = s.ps) := by
+  cases fresh with
+  | true =>
+    left
+    simp only [Sys.step] at h
+    split at h
+    · rename_i hc
+      simp only [Option.some.injEq, Prod.mk.injEq] at h
+      obtain ⟨rfl, rfl⟩ := h
+      exact ⟨rfl, (hinv hnd).2.1 (Or.inr hc), by simp [Cfg.fixed], rfl⟩
+    · cases h
+  | false =>
+    right
+    simp only [Sys.step, Cfg.fixed, if_true] at h
+    split at h
+    · simp only [Option.some.injEq, Prod.mk.injEq] at h
+      obtain ⟨rfl, rfl⟩ := h
+      exact ⟨rfl, rfl, rfl⟩
+    · cases h
 
 /-- **Lone ESC**: a read returns ESC, the loop blocks in the next read, 10 ms pass: exactly one
     `C0 0x1B` (after whatever the ESC itself terminated), the parser is in ground with nothing
     collected and no ST pending, the timer is spent (it cannot fire again), and the next rune is
     therefore parsed from the ground state. -/
 theorem lone_esc (s : Sys) (hpc : s.pc = .inRead) (hcl : s.closeReq = false) :
-    let s' : Sys := { s with ps := timerReset true (pstep s.ps (.rune 0x1B)).st, pc := .inRead, armed := false }
-    Sys.run handTable true s [.read 0x1B, .enterRead, .timerFire] =
+    let s' : Sys := { s.outdate with ps := timerReset true (pstep s.ps (.rune 0x1B)).st, pc := .inRead, armed := false }
+    Sys.run handTable Cfg.fixed s [.read 0x1B, .enterRead, .timerFire] =
         some (s', (pstep s.ps (.rune 0x1B)).out ++ [.c0 0x1B]) ∧
       s'.ps.state = .ground ∧ s'.ps.inter = [] ∧ s'.ps.params = [] ∧ s'.ps.ignoreST = false ∧
-      Sys.step handTable true s' .timerFire = none := by
+      Sys.step handTable Cfg.fixed s' .timerFire = none := by
   have hst : startsTimer handTable 0x1B = true := by decide
   have hstop : (VaxisModel.Model.Parser.step handTable s.ps (.rune 0x1B)).stop = false := by
     cases he : s.ps.exit with
@@ -111,7 +169,7 @@ theorem lone_esc (s : Sys) (hpc : s.pc = .inRead) (hcl : s.closeReq = false) :
     | none => rw [pstep_esc s.ps he]; exact ⟨rfl, rfl⟩
     | some f => rw [pstep_esc_exit s.ps f he]; exact ⟨rfl, rfl⟩
   refine ⟨?_, rfl, hclear.1, hclear.2, rfl, ?_⟩
-  · simp [Sys.run, Sys.step, hpc, hcl, hstop, hst, pstep]
+  · simp [Sys.run, Sys.step, hpc, hcl, hstop, hst, pstep, Sys.outdate, Cfg.fixed]
   · simp [Sys.step]
 
 /-- **Prompt ESC**: if the next read returns before the timer fires, the timer is stopped: no
@@ -120,9 +178,9 @@ theorem lone_esc (s : Sys) (hpc : s.pc = .inRead) (hcl : s.closeReq = false) :
 theorem esc_prompt (s : Sys) (hinv : SInv s) (hpc : s.pc = .inRead) (hcl : s.closeReq = false) (r : Nat)
     (hr : r ≠ 0x1B) :
     let out := (pstep s.ps (.rune 0x1B)).out ++ (pstep (pstep s.ps (.rune 0x1B)).st (.rune r)).out
-    let s' : Sys := { s with ps := (pstep (pstep s.ps (.rune 0x1B)).st (.rune r)).st, pc := .atSelect, armed := false }
-    Sys.run handTable true s [.read 0x1B, .enterRead, .read r] = some (s', out) ∧
-      Seq.c0 0x1B ∉ out ∧ Sys.step handTable true s' .timerFire = none := by
+    let s' : Sys := { s.outdate with ps := (pstep (pstep s.ps (.rune 0x1B)).st (.rune r)).st, pc := .atSelect, armed := false }
+    Sys.run handTable Cfg.fixed s [.read 0x1B, .enterRead, .read r] = some (s', out) ∧
+      Seq.c0 0x1B ∉ out ∧ Sys.step handTable Cfg.fixed s' .timerFire = none := by
   have hst : startsTimer handTable 0x1B = true := by decide
   have hi := hinv (by rw [hpc]; decide)
   have h1 := hand_inv_step s.ps hi.1 (.rune 0x1B)
@@ -134,7 +192,7 @@ theorem esc_prompt (s : Sys) (hinv : SInv s) (hpc : s.pc = .inRead) (hcl : s.clo
     have := h2.2.2; simpa [pstep, isEof] using this
   have harm : startsTimer handTable r = false := by rw [startsTimer_hand]; simp [hr]
   refine ⟨?_, ?_, ?_⟩
-  · simp [Sys.run, Sys.step, hpc, hcl, hstop1, hstop2, harm, pstep]
+  · simp [Sys.run, Sys.step, hpc, hcl, hstop1, hstop2, harm, pstep, Sys.outdate]
   · intro h
     rcases List.mem_append.mp h with h | h
     · exact pstep_no_esc_key _ _ h
